@@ -704,26 +704,22 @@ async fn run_case_async(ops: &[String]) -> Vec<String> {
                 Some(_) => "dead".into(),
                 None => "bad-op".into(),
             },
-            ["burst", items @ ..] => match rig.as_mut() {
-                Some(r) if r.ended.is_none() => {
-                    let mut ok = true;
-                    for it in items.iter() {
-                        let ps: Vec<&str> = it.split(':').collect();
-                        match lane_cmd(&ps) {
-                            Some((lane, body)) => r.send(&lane, body).await,
-                            None => ok = false,
+            ["burst", items @ ..] => {
+                // validate the whole burst before anything is sent
+                let reqs: Option<Vec<(String, String)>> =
+                    items.iter().map(|it| lane_cmd(&it.split(':').collect::<Vec<&str>>())).collect();
+                match (rig.as_mut(), reqs) {
+                    (Some(r), Some(reqs)) if r.ended.is_none() => {
+                        for (lane, body) in reqs {
+                            r.send(&lane, body).await;
                         }
-                    }
-                    if ok {
                         quiesce().await;
                         r.report().await
-                    } else {
-                        "bad-op".into()
                     }
+                    (Some(_), Some(_)) => "dead".into(),
+                    _ => "bad-op".into(),
                 }
-                Some(_) => "dead".into(),
-                None => "bad-op".into(),
-            },
+            }
             other => match (rig.as_mut(), lane_cmd(other)) {
                 (Some(r), Some((lane, body))) if r.ended.is_none() => {
                     r.send(&lane, body).await;
@@ -871,6 +867,11 @@ impl Gen {
     }
 
     fn op(&mut self, depth: u64) -> String {
+        if self.rng.chance(1, 60) {
+            // malformed program text / out-of-range lanes: rejected by both sides before anything runs
+            return (*self.rng.pick(&["cmd F(e1", "cmd s7=1", "cmd Q[e1,]", "cmd u2.1=5", "vset 3 1", "mupd 0 x 1", "cmd"]))
+                .to_string();
+        }
         match self.rng.below(100) {
             0..=69 => format!("cmd {}", self.h(depth, 0, 0, true)),
             70..=79 => format!("vset {} {}", self.rng.below(NV as u64), self.rng.range(0, 30)),
@@ -895,7 +896,16 @@ fn main() {
                     let depth = g.rng.range(1, 6);
                     if burst {
                         let k = g.rng.range(2, 5);
-                        let items: Vec<String> = (0..k).map(|_| g.op(depth.min(3)).replace(' ', ":")).collect();
+                        // a remove of an absent key leaves no trace: its position among requests to other lanes
+                        // could not be recovered by the monitor, so bursts do not contain `mrem`
+                        let items: Vec<String> = (0..k)
+                            .map(|_| loop {
+                                let o = g.op(depth.min(3));
+                                if !o.starts_with("mrem") {
+                                    break o.replace(' ', ":");
+                                }
+                            })
+                            .collect();
                         ops.push(format!("burst {}", items.join(" ")));
                     } else {
                         ops.push(g.op(depth));
